@@ -65,8 +65,56 @@ func docOf(j job) (*pagedoc.Doc, error) {
 
 var fonts = render.NewFonts("pango")
 
-// RunDoc lays one document out and builds its case.
-func RunDoc(d *pagedoc.Doc, stream string) vlib.Case {
+// marginCase: the numbers every margin box of d.MBoxes shows on every page (Check/C12.v CMBox);
+// a missing box / a text of another form is written as a value the model never computes
+func marginCase(d *pagedoc.Doc, obs []pagedoc.PageObs, tags []string, html string) vlib.Case {
+	var bs, pages []string
+	for _, b := range d.MBoxes {
+		bs = append(bs, b.Coq())
+	}
+	var shown []map[string]string
+	for _, o := range obs {
+		var boxes []string
+		m := map[string]string{}
+		for _, b := range d.MBoxes {
+			txt, ok := o.Margins[b.At]
+			m["@"+b.At] = txt
+			vals := pagedoc.ParseMarginText(txt)
+			if !ok || vals == nil {
+				vals = [][]int{{-99999, -99999, -99999}}
+			}
+			var reads []string
+			for _, l := range vals {
+				var ns []string
+				for _, v := range l {
+					ns = append(ns, fmt.Sprintf("(%d)%%Z", v))
+				}
+				reads = append(reads, vlib.List(ns))
+			}
+			boxes = append(boxes, vlib.List(reads))
+		}
+		shown = append(shown, m)
+		pages = append(pages, vlib.List(boxes))
+	}
+	var rules []string
+	for _, b := range d.MBoxes {
+		rules = append(rules, b.CSS())
+	}
+	return vlib.Case{Kind: "mbox", Nontrivial: len(obs) > 1, Tags: append(append([]string{}, tags...), "margin-box-counters"),
+		Coq:  fmt.Sprintf("CMBox %s %s", vlib.List(bs), vlib.List(pages)),
+		Desc: map[string]interface{}{"html": html, "margin_rules": rules, "margin_box_text_per_page": shown}}
+}
+
+// RunDoc lays one document out and builds its cases.
+func RunDoc(d *pagedoc.Doc, stream string) []vlib.Case {
+	c, obs := runDoc(d, stream)
+	if c.Kind != "doc" || len(d.MBoxes) == 0 {
+		return []vlib.Case{c}
+	}
+	return []vlib.Case{c, marginCase(d, obs, c.Tags, d.HTML())}
+}
+
+func runDoc(d *pagedoc.Doc, stream string) (vlib.Case, []pagedoc.PageObs) {
 	html := d.HTML()
 	var obs []pagedoc.PageObs
 	out := render.GuardTimeout(20*time.Second, func() {
@@ -90,7 +138,7 @@ func RunDoc(d *pagedoc.Doc, stream string) vlib.Case {
 		c.Tags = tags
 		c.Coq = fmt.Sprintf("CCrash %s", d.Coq())
 		c.Desc = desc
-		return c
+		return c, nil
 	}
 	desc["pages"] = pagedoc.Summary(obs)
 	if d.PageTopPaddingOverflow(obs) {
@@ -100,7 +148,7 @@ func RunDoc(d *pagedoc.Doc, stream string) vlib.Case {
 	c.Nontrivial = len(obs) > 1
 	c.Coq = fmt.Sprintf("CDoc %s %s", d.Coq(), pagedoc.CoqPages(obs))
 	c.Desc = desc
-	return c
+	return c, obs
 }
 
 func handle(in string) string {
@@ -132,12 +180,15 @@ func main() {
 		if err != nil {
 			panic(err)
 		}
-		c := RunDoc(d, "single")
+		cs := RunDoc(d, "single")
+		c := cs[0]
 		fmt.Println(d.HTML())
 		for _, l := range c.Desc.(map[string]interface{})["pages"].([]string) {
 			fmt.Println(l)
 		}
-		fmt.Println(c.Coq)
+		for _, c := range cs {
+			fmt.Println(c.Coq)
+		}
 		return
 	}
 	rng := vlib.NewRng(vlib.Seed())
@@ -167,9 +218,11 @@ func main() {
 	defer w.Close()
 	for i, r := range res {
 		if r.Status == "ok" && r.Out != "" {
-			var c vlib.Case
-			if json.Unmarshal([]byte(r.Out), &c) == nil {
-				w.Add(c)
+			var cs []vlib.Case
+			if json.Unmarshal([]byte(r.Out), &cs) == nil {
+				for _, c := range cs {
+					w.Add(c)
+				}
 				continue
 			}
 		}
